@@ -145,12 +145,14 @@ unsigned MessageBase::decode(const f8String& from, unsigned s_offset, unsigned i
 			if (!itr->_field_traits.has(FieldTrait::automatic))
 				throw DuplicateField(tv);
 		}
-		else for(unsigned ii(0); ii < 2; ++ii)
+		else for(unsigned ii(0), data_sz(0); ii < 2; ++ii)
 		{
 			const BaseEntry *be(_ctx.find_be(tv));
 			if (!be)
 				throw UnknownField(tv);
 			BaseField *bf(be->_create._do(val, be->_rlm, -1));
+			if (ii) // fixed width data may contain any byte including 0
+				static_cast<Field<f8String, 0> *>(bf)->set(f8String(val, data_sz));
 			add_field_decoder(tv, ++pos, bf);
 			itr->_field_traits.set(FieldTrait::present);
 			// check if repeating group and num elements > 0
@@ -177,6 +179,7 @@ unsigned MessageBase::decode(const f8String& from, unsigned s_offset, unsigned i
 
 			tv = static_cast<unsigned short>(ntag);
 			itr = nitr;
+			data_sz = val_sz;
 			s_offset += result;
 		}
 	}
@@ -261,7 +264,9 @@ unsigned MessageBase::decode_group(GroupBase *grpbase, const unsigned short fnum
 					if (!(result = extract_element_fixed_width(dptr + s_offset, fsize - s_offset, val_sz, tag, val)))
 						throw MissingMandatoryField("Unable to extract fixed width field");
 					s_offset += result;
-					grp->add_field(ntag, nitr, ++pos, dbe->_create._do(val, dbe->_rlm, -1), false);
+					BaseField *dbf(dbe->_create._do(val, dbe->_rlm, -1));
+					static_cast<Field<f8String, 0> *>(dbf)->set(f8String(val, val_sz)); // may contain any byte including 0
+					grp->add_field(ntag, nitr, ++pos, dbf, false);
 					grp->_fp.set(ntag, nitr, FieldTrait::present);
 				}
 			}
